@@ -730,9 +730,12 @@ protected:
             {
                 if (outsideCDATA == true)
                 {
+                    // The previous character was written as a character
+                    // reference, outside of a CDATA section, so open a
+                    // new section for the two brackets.
                     m_writer.write(
-                        m_constants.s_cdataCloseString,
-                        m_constants.s_cdataCloseStringLength);
+                        m_constants.s_cdataOpenString,
+                        m_constants.s_cdataOpenStringLength);
                 }
 
                 m_writer.write(value_type(XalanUnicode::charRightSquareBracket));
